@@ -218,6 +218,12 @@ func (limitsEngine) Gen(r *Rand, tier string) any {
 		c.Forms = meterProgram(r, c.Depth)
 		c.Knobs.TRO = PickStr(r, []string{"", "", "profiler"})
 	}
+	switch c.Mode {
+	case "phys", "nest", "tail", "macro", "logical", "physlogic":
+		// in a third of the structural cases the host assigns the limit to the
+		// exported field of a runtime that has already evaluated something
+		c.Knobs.LimitsByField = r.Chance(1, 3)
+	}
 	c.Knobs.UseSimCtx = true
 	return c
 }
